@@ -49,6 +49,17 @@ Definition corpus : list (string * (style * prog)) :=
      (sh, [IStmt (SIf (EPrim (PGt NInt) [ELit (LNum NInt 0); ELit (LNum NInt 0)])
                          [STry [SPrint [ELit (LStr "t")]] [(0, [])]] []);
               IStmt (SPrint [ELit (LStr "end")])]));
+    (* an `if` expression as an element of a list bracket crashes at run time *)
+    ("if-inside-list-bracket",
+     (sq, [IFun (mkFun 1 [TBool] (TList BMI) [] [] (EListLit BMI [EIf (ELoc 0) (mi 5) (mi 7)]) true 0);
+           IStmt (SPrint [ECall 1 [ELit (LBool false)]])]));
+    (* `empty?` of a List(String) inside a top-level `if` whose else branch indexes with
+       `# (empty@List(MachineInteger))`: "did not match any possible parameter type ... could be
+       suitable if imported" although List(String) is imported *)
+    ("list-import-lost-in-toplevel-if",
+     (sq, [IVar TStr (EIf (EPrim (PLEmptyQ BStr) [EListLit BStr []]) (ELit (LStr "e"))
+                          (EPrim (PLNth BStr) [EListLit BStr []; EPrim (PLLen BMI) [EListLit BMI []]]));
+           IStmt (SPrint [EGlob 0])]));
     (* sanity entries that must agree *)
     ("iterate-in-for",
      (sq, [IVar TMI (mi 0);
